@@ -23,7 +23,11 @@ from .env import Environment
 
 def create_if_exp(nname, iname, max_i, jname=None, max_j=None):
     """Given a List or List of List `nname`, an index `iname` and an optional index `jname`,
-    returns L[0] if i == 0 else L[1] if i == 1 ..."""
+    returns L[0] if i == 0 else L[1] if i == 1 ...; max_j is the last column, or the
+    list of the last columns of every row"""
+
+    def last_j(i):
+        return max_j[i] if isinstance(max_j, list) else max_j
 
     def access_ij(i, j):
         fsub = ast.Subscript(
@@ -42,7 +46,7 @@ def create_if_exp(nname, iname, max_i, jname=None, max_j=None):
             return fsub
 
     def _create_if_exp(i, j=None):
-        if i == max_i and (jname is None or j == max_j):
+        if i == max_i and (jname is None or j == last_j(i)):
             return access_ij(i, j)
         else:
             cmp_i = ast.Compare(
@@ -51,8 +55,8 @@ def create_if_exp(nname, iname, max_i, jname=None, max_j=None):
                 comparators=[ast.Constant(value=i)],
             )
             if jname is not None:
-                next_j = j + 1 if j < max_j else 0
-                next_i = i if j < max_j else i + 1
+                next_j = j + 1 if j < last_j(i) else 0
+                next_i = i if j < last_j(i) else i + 1
 
                 return ast.IfExp(
                     test=ast.BoolOp(
@@ -169,11 +173,13 @@ class ASTRewriter(ast.NodeTransformer):
 
             if isinstance(gtype, ast.Tuple) and isinstance(gtype.elts[0], ast.Tuple):
                 max_i = len(gtype.elts) - 1
-                max_j = len(gtype.elts[0].elts) - 1
+                max_j = [len(_row_elts(r, gtype.elts)) - 1 for r in gtype.elts]
             else:
                 outer_tuple = gtype.slice
                 max_i = len(outer_tuple.elts) - 1
-                max_j = len(_row_elts(outer_tuple.elts[0], outer_tuple.elts)) - 1
+                max_j = [
+                    len(_row_elts(r, outer_tuple.elts)) - 1 for r in outer_tuple.elts
+                ]
 
             # Create the IfExp structure
             return create_if_exp(nname, iname, max_i, jname, max_j)
